@@ -1854,6 +1854,44 @@ mod hs {
 			}
 			set_chain(0);
 		}
+		// --- mainnet headers of every hard-fork era (the version scheduled for the height, a past timestamp, both
+		// proof-of-work sizes) with UNSOLVED proofs: ascending in-range nonces, random / all even / all odd / one
+		// repeated. The untrusted readers run the era's verifier (Cuckatoo, Cuckaroo, Cuckarood, Cuckaroom,
+		// Cuckarooz) on them while decoding; it must answer with an error, whatever the nonces look like
+		{
+			set_chain(F_MAINNET);
+			for (era, height) in [262_079u64, 262_080, 400_000, 524_160, 700_000, 786_240, 1_000_000, 1_048_320, 1_500_000].iter().enumerate() {
+				for (k, eb) in [29u8, 31, 32].iter().enumerate() {
+					let shape = (era + k) % 4;
+					set_chain(F_MAINNET);
+					let mut h = g_header(&mut r, true);
+					h.height = *height;
+					h.version = grin_core::consensus::header_version(*height);
+					let mask = (1u64 << eb) - 1;
+					let mut nonces: Vec<u64> = (0..42).map(|_| r.next() & mask).collect();
+					match shape {
+						1 => nonces.iter_mut().for_each(|n| *n &= !1),
+						2 => nonces.iter_mut().for_each(|n| *n |= 1),
+						_ => {}
+					}
+					nonces.sort();
+					nonces.dedup();
+					while nonces.len() < 42 {
+						let x = *nonces.last().unwrap();
+						nonces.push(if shape == 3 { x } else { (x + 2).min(mask) });
+					}
+					h.pow.proof = Proof { edge_bits: *eb, nonces };
+					let tag = format!("era-h{}-eb{}-shape{}", height, eb, shape);
+					s.add(E_UHEADER, F_MAINNET, &tag, &h);
+					if k == 0 {
+						set_chain(F_MAINNET);
+						let b = Block { header: h.clone(), body: g_body(&mut r, 0, 1, 1) };
+						s.add(E_UBLOCK, F_MAINNET, &tag, &b);
+					}
+				}
+			}
+			set_chain(0);
+		}
 		// --- objects of the real-PoW chain (the untrusted readers verify the proof of work)
 		let picks: Vec<&Block> = {
 			let mut v: Vec<&Block> = vec![];
